@@ -124,18 +124,23 @@ impl Model {
 		}
 	}
 
+	/// Does the transaction dereference a tree root that, in commit order, no longer exists?
+	/// The implementation judges existence by what is currently readable (removal takes effect when the
+	/// dereferencing commit is logged), so it may accept such a dereference as a no-op or reject it;
+	/// the properties allow both.
+	pub fn derefs_missing_root(&self, tx: &Tx) -> bool {
+		tx.iter().any(|(c, op)| match (op, self.cols.get(*c as usize)) {
+			(Op::DerefTree(k), Some(ColModel::Tree(t))) => !t.roots.contains_key(&k.bytes()),
+			_ => false,
+		})
+	}
+
 	/// Apply a transaction. `Err` means the model expects the commit call to be rejected,
 	/// and then the model is unchanged.
 	pub fn apply(&mut self, tx: &Tx) -> Result<(), String> {
 		let mut next = self.clone();
-		// Validity of a tree dereference is judged against the state before the transaction.
 		for (c, op) in tx {
 			self.static_check(*c, op)?;
-			if let (Op::DerefTree(k), ColModel::Tree(t)) = (op, &self.cols[*c as usize]) {
-				if !t.roots.contains_key(&k.bytes()) {
-					return Err("dereference of a missing tree root".into())
-				}
-			}
 		}
 		for (c, op) in tx {
 			let spec = &self.specs[*c as usize];
